@@ -489,9 +489,22 @@ class CallMixin:
                     body = self.truth(self.ev1(g.elt, s2), s2)
                     res.append(z3.Implies(z3and(conds), body) if kind == 'all' else z3.And(z3and(conds), body))
                 return SV(BOOL, z3.And(res) if kind == 'all' else z3.Or(res))
+            ld = self.lift(dom)
+            if isinstance(ld, RangeV):
+                lo_, hi_, st_ = (z3.simplify(self.num(x, sub)[0]) for x in (ld.start, ld.stop, ld.step))
+                if z3.is_int_value(lo_) and z3.is_int_value(hi_) and z3.is_int_value(st_) and st_.as_long() == 1 \
+                        and 0 <= hi_.as_long() - lo_.as_long() <= 12:
+                    # a literal small range: expanded (ground instances instead of a quantifier)
+                    res = []
+                    for c in range(lo_.as_long(), hi_.as_long()):
+                        s2 = sub.fork()
+                        self.bind_target(gen.target, SV(INT, z3.IntVal(c)), s2)
+                        conds = [self.truth(self.ev1(c2, s2), s2) for c2 in gen.ifs]
+                        body = self.truth(self.ev1(g.elt, s2), s2)
+                        res.append(z3.Implies(z3and(conds), body) if kind == 'all' else z3.And(z3and(conds), body))
+                    return SV(BOOL, (z3.And(res) if kind == 'all' else z3.Or(res)) if res else z3.BoolVal(kind == 'all'))
             i = fresh_const('q', z3.IntSort())
             bvars = [i]
-            ld = self.lift(dom)
             if isinstance(ld, RangeV) and z3.is_int_value(z3.simplify(self.num(ld.step, sub)[0])) \
                     and z3.simplify(self.num(ld.step, sub)[0]).as_long() == 1:
                 # direct form  lo <= i < hi  (no index arithmetic in the quantifier body)
